@@ -1,5 +1,5 @@
 (** C12 - Every send request terminates exactly once with the right outcome (logic level). *)
-From IsoTp Require Import Base.Prelude Model.Micro Spec.ConfigSpec Spec.Segment Proofs.Inv Proofs.FsmProps Proofs.LocalP Proofs.TxP.
+From IsoTp Require Import Base.Prelude Model.Micro Spec.ConfigSpec Spec.Segment Proofs.Inv Proofs.FsmProps Proofs.LocalP Proofs.TxP Proofs.OnceP.
 
 (** The transmitter is idle exactly when it holds no request: a finished or dropped request is
     never kept (so it cannot be completed a second time). *)
@@ -37,8 +37,20 @@ Theorem C12_tx_events : forall c s, tr_crash (process_tx c s) = false ->
   forallb Events.tx_ev_ok (tr_evs (process_tx c s)) = true.
 Proof. exact Events.process_tx_evs. Qed.
 
+(** Run level: along ANY run of micro-steps from the initial state - every schedule of process()
+    passes, user calls (send, stop_sending, reset, ...), received frames and clock ticks - the
+    identifiers of the completions reported ([dones evs]) contain no duplicate: no request is
+    completed twice; every completion concerns a request send() accepted earlier; and a request
+    the layer still holds (queued or active, [live s]) has not been completed yet. *)
+Theorem C12_exactly_once : forall c t0 ms,
+  let '(s, evs) := mrun c (init_layer c t0) ms in
+  NoDup (dones evs) /\ (forall x, In x (dones evs) -> x < next_req_id s) /\
+  (forall x, In x (live s) -> ~ In x (dones evs)).
+Proof. exact exactly_once. Qed.
+
 Print Assumptions C12_idle_iff.
 Print Assumptions C12_abort.
 Print Assumptions C12_reset.
 Print Assumptions C12_empty.
 Print Assumptions C12_tx_events.
+Print Assumptions C12_exactly_once.
